@@ -31,6 +31,7 @@ namespace verif {
         SEM_ADD = 50,          // obj=semaphore a=n b=new count
         SEM_SUB = 51,          // obj=semaphore a=n b=success
         SEM_RESUME = 52,       // obj=semaphore a=demand of the woken waiter b=thread
+        SEM_PASS = 53,         // obj=semaphore a=count the resume pass may hand out
     };
 }
 }
